@@ -514,6 +514,9 @@ func main(a, b uint5) (uint5, uint5) {
 	return a / b, a % b
 }
 `},
+	{"udiv2", `package main
+func main(a, b uint2) uint2 { return a / b }
+`},
 	{"udiv7", `package main
 func main(a, b uint7) (uint7, uint7) {
 	return a / b, a % b
